@@ -14,7 +14,8 @@
 """
 import ast
 
-from sa.canon import A, f_and, f_or, f_not, f_implies, f_show, f_atoms, f_equiv
+from sa.canon import A, f_and, f_or, f_not, f_implies, f_show, f_atoms, f_equiv, respell, \
+    respell_loop
 from sa.interp import Interp, C
 from sa.canon import Canon
 from . import loaderfacts
@@ -58,7 +59,7 @@ def run(ctx, chk):
     K = "each(Y['{}'].items())"
     for k in ("sensitive_hosts", "firewall"):
         it = K.format(k)
-        want = f"{{eval({it}[0]): {it}[1] for {it}}}"
+        want = respell(f"{{eval({it}[0]): {it}[1] for {it}}}")
         chk.ob("C17.routing", f"scenario['{k}'] = the document's section with evaluated address "
                "keys, values unchanged", items.get(k) == want, f"{items.get(k)}", path)
     chk.ob("C17.routing", "scenario['step_limit'] = the document's step_limit, None when absent",
@@ -71,7 +72,7 @@ def run(ctx, chk):
     ok = False
     if mp is not None:
         vt = mapping_value_term(ip, hosts_t)
-        ok = mp[0] == f"eval({HCI}[0])" and mp[2] == ["Y['host_configurations'].items()"] \
+        ok = mp[0] == respell(f"eval({HCI}[0])") and mp[2] == ["Y['host_configurations']"] \
             and mp[3] == ("true",) and vt[0] == "new" and vt[1] == "Host"
     chk.ob("C17.routing", "scenario['host'] maps every evaluated address of host_configurations to "
            "a Host built from that configuration", bool(ok), items.get("host", "missing")[:200],
@@ -104,15 +105,17 @@ def run(ctx, chk):
         base, idx, val = cn.show(ev.data["base"]), cn.show(ev.data["idx"]), cn.show(ev.data["value"])
         cond = f_show(cn.conj(tuple(c for c in ev.pc if c[0] not in ("inloop", "fact"))))
         ok = False
-        for D in ("each(Y['exploits'].items())[1]", "each(Y['privilege_escalation'].items())[1]"):
+        HC1 = respell(f"{HCI}[1]")
+        for D in (respell("each(Y['exploits'].items())[1]"),
+                  respell("each(Y['privilege_escalation'].items())[1]")):
             if base == D and idx == "'os'" and val == "None" and \
                     cond == f"'none'==str({D}['os']).lower()":
                 ok = True
             if base == D and idx == "'access'" and val == f"{amap_show}[{D}['access']]" and \
                     cond == f"isinstance({D}['access'], str)":
                 ok = True
-        if base == f"{HCI}[1]" and idx == "'firewall'" and val == "{}" and \
-                cond == f"!'firewall' in {HCI}[1]":
+        if base == HC1 and idx == "'firewall'" and val == "{}" and \
+                cond == f"!'firewall' in {HC1}":
             ok = True
         allowed += ok
         chk.ob("C17.transform", f"in-place normalisation {base}[{idx}] := {val} when {cond} is a "
@@ -142,6 +145,7 @@ def run(ctx, chk):
                      f"{HC}.get('value', 0))",
         }
         got = {k: cn.show(v) for k, v in kw.items()}
+        want = {k: respell(w) for k, w in want.items()}
         for k, w in want.items():
             chk.ob("C17.transform", f"Host.{k} is built from the host's configuration as "
                    f"documented", got.get(k) == w, f"Host({k}={got.get(k)})", ev.loc)
@@ -195,16 +199,16 @@ def check_acceptance(ctx, chk, lf):
             if c[0] == "alt":
                 # documented (non-strict) alternatives are equivalent spellings of one rule
                 for a in c[1][:c[2]]:
-                    by_loops.setdefault(tuple(loops), []).append(a)
+                    by_loops.setdefault(tuple(respell_loop(l) for l in loops), []).append(a)
             else:
-                by_loops.setdefault(tuple(loops), []).append(c)
-    HC = "each(Y['host_configurations'].items())[1]"
+                by_loops.setdefault(tuple(respell_loop(l) for l in loops), []).append(c)
+    HC = respell("each(Y['host_configurations'].items())[1]")
     # minimum key counts follow from the required keys being present: assumed true
     benign = {f"2<len({HC})", f"{len(DOC_SECTIONS) - 1}<len(Y)"}
     n = 0
     for g in lf.guards:
         fs = f_show(g.F)
-        if g.loops == ["Y.items()"] or (fs.endswith("<len(Y)") and fs[:-7].isdigit()):
+        if g.loops == ["Y"] or (fs.endswith("<len(Y)") and fs[:-7].isdigit()):
             continue                      # section table guards: C18.sections.*
         if len(g.loops) == 1 and g.loops[0].startswith("[(") and "scan_cost" in g.loops[0]:
             doc = [f_not(A(f"each({g.loops[0]})[1]<0"))]
